@@ -173,7 +173,10 @@ func (c *RepoCache) lock(events chan BuildEvent) error {
 		return err
 	}
 
-	f, err := c.repo.LocalStorage().Create(lockfile)
+	// The pid goes to a temporary file that is then renamed: a process dying half-way must not
+	// leave an empty lock file, which no later open could get past.
+	tmpfile := fmt.Sprintf("%s.%d", lockfile, os.Getpid())
+	f, err := c.repo.LocalStorage().Create(tmpfile)
 	if err != nil {
 		return err
 	}
@@ -185,7 +188,12 @@ func (c *RepoCache) lock(events chan BuildEvent) error {
 		return err
 	}
 
-	return f.Close()
+	err = f.Close()
+	if err != nil {
+		return err
+	}
+
+	return c.repo.LocalStorage().Rename(tmpfile, lockfile)
 }
 
 func (c *RepoCache) Close() error {
